@@ -40,9 +40,9 @@ def real_core(job):
             outs.append({"crash": f"value: {type(e).__name__}: {e}"})
             continue
         if kind == "um":
-            outs.append(enc.run_real(lambda: typelib.unmarshal(ann, v), P))
+            outs.append(real_um(typelib, P, ann, v, op))
         elif kind == "mar":
-            outs.append(enc.run_real(lambda: typelib.marshal(v, t=ann), P))
+            outs.append(real_mar(typelib, P, ann, v, op))
         elif kind == "rt":
             box = {}
             def m():
@@ -71,6 +71,116 @@ def real_core(job):
         else:
             outs.append({"crash": f"unknown op {kind}"})
     return outs
+
+
+def real_um(typelib, P, ann, v, op):
+    """unmarshal with the extra observations requested in op['obs']."""
+    obs = op.get("obs", ())
+    box = {}
+
+    def call():
+        box["r"] = typelib.unmarshal(ann, v)
+        return box["r"]
+    out = enc.run_real(call, P)
+    if "r" in box:
+        r = box["r"]
+        if "conforms" in obs:
+            from .pyoracle import conforms as pc
+            why = []
+            try:
+                out["conforms"] = bool(pc.conforms(ann, r, why))
+            except Exception as e:  # noqa: BLE001
+                out["conforms"] = None
+                why.append(f"checker raised {type(e).__name__}: {e}")
+            out["why"] = why[:4]
+        if "idem" in obs:
+            out["again"] = enc.run_real(lambda: typelib.unmarshal(ann, r), P)
+    if "carriers" in obs and isinstance(op["val"], str):
+        cs = {}
+        for c, mk in enc.CARRIERS.items():
+            cs[c] = enc.run_real(lambda: typelib.unmarshal(ann, mk(op["val"])), P)
+        out["carriers"] = cs
+    return out
+
+
+def _walk_ids(x, acc, depth=0):
+    """ids of every mutable container reachable from x (list / dict / set / deque / bytearray)."""
+    import collections
+    if depth > 200:
+        return
+    if isinstance(x, (list, dict, set, collections.deque, bytearray)):
+        acc.add(id(x))
+    if isinstance(x, dict):
+        for k, v in x.items():
+            _walk_ids(k, acc, depth + 1)
+            _walk_ids(v, acc, depth + 1)
+    elif isinstance(x, (list, tuple, set, frozenset, collections.deque)):
+        for e in x:
+            _walk_ids(e, acc, depth + 1)
+    elif hasattr(x, "__dataclass_fields__") or hasattr(x, "__dict__") and not isinstance(x, type):
+        try:
+            for e in vars(x).values():
+                _walk_ids(e, acc, depth + 1)
+        except TypeError:
+            pass
+    elif hasattr(type(x), "__slots__") and not isinstance(x, (str, bytes, int, float)):
+        for sname in getattr(type(x), "__slots__", ()):
+            if hasattr(x, sname):
+                _walk_ids(getattr(x, sname), acc, depth + 1)
+
+
+def plain_reason(m, depth=0):
+    """None if m consists solely of None/bool/int/float/str/list/dict of exact builtin classes with primitive keys."""
+    t = type(m)
+    if m is None or t in (bool, int, float, str):
+        return None
+    if depth > 300:
+        return None
+    if t is list:
+        for e in m:
+            r = plain_reason(e, depth + 1)
+            if r:
+                return r
+        return None
+    if t is dict:
+        for k, e in m.items():
+            if not (k is None or type(k) in (bool, int, float, str)):
+                return f"dict key of class {type(k).__name__}"
+            r = plain_reason(e, depth + 1)
+            if r:
+                return r
+        return None
+    return f"value of class {t.__module__}.{t.__qualname__}"
+
+
+def real_mar(typelib, P, ann, v, op):
+    obs = op.get("obs", ())
+    box = {}
+    before = enc.from_py(v, P) if "plain" in obs else None
+
+    def call():
+        box["m"] = typelib.marshal(v, t=ann)
+        return box["m"]
+    out = enc.run_real(call, P)
+    if "m" in box and "plain" in obs:
+        import json as _json
+        m = box["m"]
+        out["plain"] = plain_reason(m)
+        try:
+            _json.dumps(m)
+            out["json"] = True
+        except Exception as e:  # noqa: BLE001
+            out["json"] = f"{type(e).__name__}: {e}"[:120]
+        m2 = typelib.marshal(v, t=ann)
+        out["deterministic"] = enc.canon_unordered(enc.from_py(m2, P)) == enc.canon_unordered(enc.from_py(m, P))
+        ids_in, ids_out, ids_out2 = set(), set(), set()
+        _walk_ids(v, ids_in)
+        _walk_ids(m, ids_out)
+        _walk_ids(m2, ids_out2)
+        out["shares_with_input"] = bool(ids_in & ids_out)
+        out["shares_between_calls"] = bool(ids_out & ids_out2)
+        out["input_unmodified"] = enc.from_py(v, P) == before
+    return out
 
 
 def lean_core(jobs):
@@ -112,4 +222,41 @@ def same(real, model, unordered=False):
         return c(real["ok"]) == c(model["ok"])
     if "err" in real and "err" in model:
         return real["err"] == model["err"]
+    return False
+
+
+def gen_jobs(ctx, n_prog, tag, cfg_kw, make_ops):
+    """n_prog programs; make_ops(gen, prog) -> list of ops (types must be generated BEFORE materialisation,
+    which the children do)."""
+    from . import universe
+    jobs = []
+    for i in range(n_prog):
+        g = universe.Gen(ctx.rng, universe.Cfg(**cfg_kw))
+        prog = g.program(tag=f"{tag}_{i}")
+        jobs.append({"prog": prog, "ops": make_ops(g, prog)})
+    return jobs
+
+
+def iter_results(jobs, real, model):
+    """Yield (job, op, real_out, model_out); harness failures raise."""
+    for job, ro, mo in zip(jobs, real, model):
+        if isinstance(ro, dict) and "crash" in ro:
+            raise RuntimeError(f"harness: program failed to materialise: {ro}")
+        for op, r_, m_ in zip(job["ops"], ro, mo):
+            if isinstance(r_, dict) and "crash" in r_:
+                raise RuntimeError(f"harness: {r_}")
+            yield job, op, r_, m_
+
+
+def compare(res, what, inp, r_, m_, unordered=False):
+    """Correspondence bookkeeping for one (real, model) outcome pair. Returns True if compared and equal."""
+    if model_skips(m_):
+        res.skipped += 1
+        res.count(f"{what}:model-unsupported")
+        return None
+    if same(r_, m_, unordered=unordered):
+        res.count(f"{what}:agree:" + ("ok" if "ok" in r_ else r_["err"]))
+        return True
+    res.count(f"{what}:DISAGREE")
+    res.disagreements.append({"what": what, "input": inp, "real": {k: r_[k] for k in r_ if k in ("ok", "err", "msg")}, "model": m_})
     return False
